@@ -15,7 +15,7 @@ import (
 func init() {
 	core.Register(&core.Prop{
 		ID: "C15",
-		Rule: "case = one base geometry of one of the eight types (5% of the multi-part bases have 60..140 members; members in distinct cells, distinct vertices >= 200 tol apart, every ring closed with a unique smallest-X anchor vertex) and ~40 derived partners with a truth value known by construction: positives = every coordinate perturbed by < 0.9 tol, combined with member/ring/item permutations and ring-start rotations; negatives = other type (all 56 ordered type pairs), member inserted/deleted (also empty members), vertex inserted/deleted, line string reversed, one vertex displaced by 1.5-100 tol; every pair is evaluated in both directions (symmetry), plus unrelated random pairs; " +
+		Rule: "case = one base geometry of one of the eight types (5% of the multi-part bases have 60..140 members, 12% store one member two or three times as exact copies; members in distinct cells, distinct vertices >= 200 tol apart, every ring closed with a unique smallest-X anchor vertex) and ~40 derived partners with a truth value known by construction: positives = every coordinate perturbed by < 0.9 tol, combined with member/ring/item permutations and ring-start rotations; negatives = other type (all 56 ordered type pairs), member inserted/deleted (also empty members), vertex inserted/deleted, line string reversed, one vertex displaced by 1.5-100 tol; every pair is evaluated in both directions (symmetry), plus unrelated random pairs; " +
 			"an evaluation is one ordered Similar call judged; non-trivial = derived pair (distinct by hash of both geometries)",
 		Assumptions: []string{"distinct members separated by >> tol so that matching is unambiguous (as the property states)", "rings are closed; the anchor (smallest X) is unique by >= 200 tol so that a legal perturbation cannot move it"},
 		Phases: []core.Phase{{Name: "pairs", NumCases: func(t string) int {
@@ -27,7 +27,7 @@ func init() {
 		Run: run,
 		Floors: func(t string) map[string]int64 {
 			m := map[string]int64{"pos.perturbed": 5000, "pos.permuted": 2000, "pos.ring_rotated": 1000, "neg.type": 5000, "neg.member_inserted": 1000, "neg.member_deleted": 1000, "neg.vertex_inserted": 1000,
-				"neg.vertex_deleted": 1000, "neg.reversed": 300, "neg.displaced": 2000, "unrelated": 1000, "base.many_members_60_to_140": 100}
+				"neg.vertex_deleted": 1000, "neg.reversed": 300, "neg.displaced": 2000, "unrelated": 1000, "base.many_members_60_to_140": 100, "base.with_duplicate_member": 300}
 			for _, n := range typeNames {
 				m["base."+n] = 100
 			}
@@ -445,6 +445,14 @@ func run(c *core.Ctx, idx int) {
 		c.Count("base.many_members_60_to_140")
 	}
 	g := b.build(kind, 0)
+	if r.Chance(0.12) {
+		// the same member stored twice (exact copies are not "distinct members": matching stays
+		// unambiguous, but a matcher must still use every partner only once)
+		if d, ok := dupMember(r, g); ok {
+			g = d
+			c.Count("base.with_duplicate_member")
+		}
+	}
 	c.Count("base." + tname(g))
 	if c.WantSample() && kind >= 3 {
 		c.Sample(map[string]interface{}{"base": gen.Dump(g), "tolerance": tol})
@@ -503,4 +511,57 @@ func run(c *core.Ctx, idx int) {
 	// unrelated random pair of the same type: only symmetry is known... and they differ by construction (fresh cells)
 	c.Count("unrelated")
 	judge(b.build(kind, 0), false, "unrelated_same_type")
+}
+
+// dupMember returns g with one of its members (line strings, polygons, rings,
+// collection items) stored once or twice more at random positions.
+func dupMember(r *gen.R, g geom.Geom) (geom.Geom, bool) {
+	times := r.IntRange(1, 2)
+	switch t := g.(type) {
+	case geom.MultiLineString:
+		if len(t) == 0 {
+			return g, false
+		}
+		o := gen.DeepCopy(t).(geom.MultiLineString)
+		for k := 0; k < times; k++ {
+			m := gen.DeepCopy(o[r.Intn(len(o))]).(geom.LineString)
+			i := r.Intn(len(o) + 1)
+			o = append(o[:i], append(geom.MultiLineString{m}, o[i:]...)...)
+		}
+		return o, true
+	case geom.Polygon:
+		if len(t) == 0 {
+			return g, false
+		}
+		o := gen.DeepCopy(t).(geom.Polygon)
+		for k := 0; k < times; k++ {
+			m := append(geom.Path{}, o[r.Intn(len(o))]...)
+			i := r.Intn(len(o) + 1)
+			o = append(o[:i], append(geom.Polygon{m}, o[i:]...)...)
+		}
+		return o, true
+	case geom.MultiPolygon:
+		if len(t) == 0 {
+			return g, false
+		}
+		o := gen.DeepCopy(t).(geom.MultiPolygon)
+		for k := 0; k < times; k++ {
+			m := gen.DeepCopy(o[r.Intn(len(o))]).(geom.Polygon)
+			i := r.Intn(len(o) + 1)
+			o = append(o[:i], append(geom.MultiPolygon{m}, o[i:]...)...)
+		}
+		return o, true
+	case geom.GeometryCollection:
+		if len(t) == 0 {
+			return g, false
+		}
+		o := gen.DeepCopy(t).(geom.GeometryCollection)
+		for k := 0; k < times; k++ {
+			m := gen.DeepCopy(o[r.Intn(len(o))])
+			i := r.Intn(len(o) + 1)
+			o = append(o[:i], append(geom.GeometryCollection{m}, o[i:]...)...)
+		}
+		return o, true
+	}
+	return g, false
 }
